@@ -156,11 +156,12 @@ PLAN = {
     },
     "C15": {
         "level": "fault_enumeration",
-        "rule": "A64: scenario index drives a sweep of fake addresses (32 installs per sweep scenario; 32768 scenarios cover every 16-bit chunk value in each of the 4 positions, quick covers the first 12000), interleaved with seeded 64-bit fakes, displacement steering through a one-free-page neighbourhood at both window edges, and a buggified kernel; the same on the aarch64 Windows and macOS variants (macOS: ADRP/ADD/BR entry form beyond +/-128 MiB through the public path up to +/-2 GiB); direct sub-check of the macOS long-jump emitter on seeded (pc, target) pairs within +/-4 GiB incl. the B/ADRP range edges and page-offset carries (64 pairs per scenario); distinct = (mode, chunk position, offset class, layout, policy) tuples / distinct (pc, target) pairs",
+        "rule": "A64: scenario index drives a sweep of fake addresses (32 installs per sweep scenario; 32768 scenarios cover every 16-bit chunk value in each of the 4 positions, quick covers the first 12000), interleaved with seeded 64-bit fakes, displacement steering through a one-free-page neighbourhood at both window edges, and a buggified kernel; the same on the aarch64 Windows and macOS variants (macOS: ADRP/ADD/BR entry form beyond +/-128 MiB through the public path up to +/-2 GiB); direct sub-check of the macOS long-jump emitter on seeded (pc, target) pairs within +/-4 GiB incl. the B/ADRP range edges and page-offset carries (64 pairs per scenario); direct sub-check of the Linux/Windows entry-branch writer on (function, trampoline) pairs with word-aligned displacements across and beyond +/-128 MiB (in range: decodes to B to exactly the trampoline; beyond: refused with the entry untouched); distinct = (mode, chunk position, offset class, layout, policy) tuples / distinct (pc, target) pairs",
         "assumptions": [A_S],
         "parts": [s_part("S-a64-encodings", "C15", "aarch64_linux", 12000, 1048576),
                   s_part("S-a64-windows-macos", "C15", "aarch64_windows,aarch64_macos", 1200, 60000, selftest=60),
-                  s_part("S-macos-long-jump-direct", "C15L", "aarch64_macos", 4000, 400000, selftest=200)],
+                  s_part("S-macos-long-jump-direct", "C15L", "aarch64_macos", 4000, 400000, selftest=200),
+                  s_part("S-entry-branch-direct", "C15B", "aarch64_linux", 4000, 400000, selftest=200)],
     },
     "C16": {
         "level": "fault_enumeration",
